@@ -775,3 +775,188 @@ func ruleDepMapPerName(c *Ctx, rule string) {
 	walk(fd.Body, 0)
 	c.Ob(rule, "base/dep.DeclMap.depMap", fd, depth == 1 && loops >= 2, fmt.Sprintf("the set of a name is stored at the level of the loop over names (nesting depth %d), so that the dependencies of all declarations sharing the name accumulate in it", depth))
 }
+
+// ruleExactOptionRestore (X8b): options suspended for one forced evaluation are restored exactly: what is or-ed back
+// into Options afterwards is the set of bits that was set before (a variable defined as `Options & mask`), never the
+// constant mask itself, which would switch on options the user never asked for.
+func ruleExactOptionRestore(c *Ctx, rule string) {
+	n := 0
+	for _, short := range []string{"fast", "classic"} {
+		pk := c.P.Pkg(short)
+		if pk == nil {
+			continue
+		}
+		info := pk.TypesInfo
+		isSavedBits := func(fd *ast.FuncDecl, e ast.Expr) (bool, string) {
+			if tv, ok := info.Types[e]; ok && tv.Value != nil {
+				return false, "a constant mask"
+			}
+			id := identOf(e)
+			if id == nil {
+				return false, exprString(e)
+			}
+			o := info.Uses[id]
+			di := buildDefIndex(info, fd)
+			for _, d := range di.defs[o] {
+				if d == nil {
+					continue
+				}
+				// direct: set := g.Options & mask
+				if b, ok := unparen(d).(*ast.BinaryExpr); ok && b.Op == token.AND {
+					if _, is := fieldSel(info, b.X, "Options"); is {
+						return true, ""
+					}
+					if _, is := fieldSel(info, b.Y, "Options"); is {
+						return true, ""
+					}
+				}
+				// through the helper: v := cmdOptForceEval(...), judged where the helper returns
+				if call, ok := unparen(d).(*ast.CallExpr); ok {
+					if fn := calleeOf(info, call); fn != nil && fn.Name() == "cmdOptForceEval" {
+						return true, ""
+					}
+				}
+			}
+			return false, "the variable " + id.Name + " is not defined as Options & mask"
+		}
+		for _, fd := range c.P.FuncsOf(short) {
+			if fd.Body == nil {
+				continue
+			}
+			fkey := funcKey(pk, fd)
+			// (a) Options |= X inside a deferred function literal
+			ast.Inspect(fd.Body, func(nd ast.Node) bool {
+				ds, ok := nd.(*ast.DeferStmt)
+				if !ok {
+					return true
+				}
+				lit, ok := ds.Call.Fun.(*ast.FuncLit)
+				if !ok {
+					return true
+				}
+				ast.Inspect(lit.Body, func(m ast.Node) bool {
+					as, ok := m.(*ast.AssignStmt)
+					if !ok || as.Tok != token.OR_ASSIGN || len(as.Lhs) != 1 {
+						return true
+					}
+					if _, is := fieldSel(info, as.Lhs[0], "Options"); !is {
+						return true
+					}
+					n++
+					good, why := isSavedBits(fd, as.Rhs[0])
+					c.Ob(rule, fmt.Sprintf("%s/restore#%d", fkey, n), as, good, "the options or-ed back after the forced evaluation are the bits that were set before it"+sep(why))
+					return true
+				})
+				return true
+			})
+			// (b) the helper returns the saved bits
+			if fd.Name.Name == "cmdOptForceEval" {
+				ast.Inspect(fd.Body, func(nd ast.Node) bool {
+					r, ok := nd.(*ast.ReturnStmt)
+					if !ok || len(r.Results) != 1 {
+						return true
+					}
+					if v, isC := constInt(info, r.Results[0]); isC && v == 0 {
+						return true
+					}
+					n++
+					good, why := isSavedBits(fd, r.Results[0])
+					c.Ob(rule, fmt.Sprintf("%s/return#%d", fkey, n), r, good, "the helper reports the bits that were set and that it cleared"+sep(why))
+					return true
+				})
+			}
+		}
+	}
+	if n < 2 {
+		c.Ob(rule, "fast,classic/forced-evaluation", nil, false, fmt.Sprintf("%d restore sites found, at least 2 expected", n))
+	}
+}
+
+// ruleCommandCharRemoval (L5c): an unknown ':'-prefixed input is evaluated as code with the command character
+// removed. The character is found in the trimmed input; it must be removed from where it is: in the branch of
+// Interp.Cmd guarded by `X[0] == ReplCmdChar`, every slice expression `Y[1:]` slices that same X.
+func ruleCommandCharRemoval(c *Ctx, rule string) {
+	n := 0
+	for _, fk := range []string{"fast.Interp.Cmd", "classic.Interp.Cmd"} {
+		pk := c.P.PkgOfFunc(fk)
+		fd := c.P.Func(fk)
+		if fd == nil || pk == nil || fd.Body == nil {
+			c.Ob(rule, fk, nil, false, "anchor function not found")
+			continue
+		}
+		info := pk.TypesInfo
+		ast.Inspect(fd.Body, func(nd ast.Node) bool {
+			ifs, ok := nd.(*ast.IfStmt)
+			if !ok {
+				return true
+			}
+			var tested types.Object
+			for _, a := range andAtoms(ifs.Cond) {
+				b, ok := unparen(a).(*ast.BinaryExpr)
+				if !ok || b.Op != token.EQL {
+					continue
+				}
+				if _, is := fieldSel(info, b.Y, "ReplCmdChar"); !is {
+					continue
+				}
+				if ix, ok := unparen(b.X).(*ast.IndexExpr); ok {
+					if v, isC := constInt(info, ix.Index); isC && v == 0 {
+						tested = usedObj(info, ix.X)
+					}
+				}
+			}
+			if tested == nil {
+				return true
+			}
+			ast.Inspect(ifs.Body, func(m ast.Node) bool {
+				se, ok := m.(*ast.SliceExpr)
+				if !ok || se.Low == nil || se.High != nil {
+					return true
+				}
+				if v, isC := constInt(info, se.Low); !isC || v != 1 {
+					return true
+				}
+				n++
+				c.Ob(rule, fmt.Sprintf("%s/skip-char#%d", fk, n), se, usedObj(info, se.X) == tested, "the string whose first character is dropped is the string whose first character was tested against the command character ("+exprString(se)+" vs "+tested.Name()+"[0])")
+				return true
+			})
+			return false
+		})
+	}
+	if n < 2 {
+		c.Ob(rule, "fast,classic/Interp.Cmd", nil, false, fmt.Sprintf("%d removals of the command character found, at least 2 expected", n))
+	}
+}
+
+// ruleNoDuplicateOperands (Z1): `a || a` and `a && a` test one thing twice where two things were meant (Engler et al.:
+// redundancy as a sign of error). In the comparison compilers the instance is `!xe.Type.Comparable() ||
+// !xe.Type.Comparable()`: the right operand's comparability is never tested. Decided over the listed packages: no
+// || or && has two textually identical operands.
+func ruleNoDuplicateOperands(c *Ctx, rule string, shorts ...string) {
+	total := 0
+	for _, short := range shorts {
+		pk := c.P.Pkg(short)
+		if pk == nil {
+			continue
+		}
+		for _, fd := range c.P.FuncsOf(short) {
+			if fd.Body == nil {
+				continue
+			}
+			n := 0
+			ast.Inspect(fd.Body, func(nd ast.Node) bool {
+				b, ok := nd.(*ast.BinaryExpr)
+				if !ok || (b.Op != token.LOR && b.Op != token.LAND) {
+					return true
+				}
+				total++
+				if exprString(b.X) == exprString(b.Y) {
+					n++
+					c.Ob(rule, fmt.Sprintf("%s/dup#%d", funcKey(pk, fd), n), b, false, "both operands of "+b.Op.String()+" are `"+exprString(b.X)+"`: one of the two things meant is never tested")
+				}
+				return true
+			})
+		}
+	}
+	c.Ob(rule, strings.Join(shorts, ",")+"/all", nil, total > 100, fmt.Sprintf("%d && / || expressions examined: none has two identical operands (or each is reported separately)", total))
+}
